@@ -8,6 +8,7 @@ CONSTANTS
   NoRangeLen = 0
   CodeDen <- Den1
   Dims = 2
+CONSTRAINT Bound2
 VIEW View
 ACTION_CONSTRAINT Emit
 CHECK_DEADLOCK FALSE
